@@ -1,4 +1,4 @@
-import MontePyVerif.Lemmas.GeometrySwitch
+import MontePyVerif.Lemmas.GeometryLevels
 /-! # C02 — a cell's geometry keeps its Boolean meaning through read, edit and write
 
 Spec: `Spec/Geometry.lean` (`denote`: one-pass lexer + stack evaluator, MCNP's rules).
@@ -285,13 +285,28 @@ theorem C02_history_write (h : HS) (ops : List Op) (h' : HS)
 /-- **C02_update_ready.** From every well-formed tree (`wf` = DESIGN's `HS.WF`: nothing is asked of the links, nodes may
     be missing) `HalfSpace._update_values` — `_ensure_has_nodes`, `_link_child`, `_end_trailing_comment`,
     `_end_comments_in_parentheses`, then `_update_node` everywhere — establishes the state `ready`. -/
-theorem C02_update_ready (c : Nat) (h : HS) (hw : wf h = true) : ready (updateValues c h).1 = true :=
-  (update_ready _ (ensure_linked c h hw).1).1
+theorem C02_update_ready (c : Nat) (h : HS) (hw : wf h = true) : ready (updateValues c h).1 = true := by
+  rw [updateValues_eq_once c h hw]
+  exact (update_ready _ (ensure_linked c h hw).1).1
+
+/-- **C02_levels_once.** `_update_values` as the code runs it — level by level, `_ensure_has_nodes` (hence
+    `_link_child`) once more on every level — gives exactly what one `_ensure_has_nodes` and `_update_node` everywhere
+    give, on every well-formed tree: re-linking a subtree that was just linked changes nothing (`ensure_idem`). A
+    change that makes a level *skip* its link step is therefore a different function on histories where a link is
+    stale (write; edit an inner node; write). -/
+theorem C02_levels_once (c : Nat) (h : HS) (hw : wf h = true) : updateValues c h = updateOnce c h :=
+  updateValues_eq_once c h hw
+
+/-- sufficiency of the fuel of `updateLevels` -/
+theorem C02_levels_fuel (f c : Nat) (h : HS) (hw : wf h = true) (hf : h.height < f) :
+    updateLevels f c h = updateValues c h :=
+  updateLevels_fuel f c h hw hf
 
 /-- `_update_values` does not change the region of the tree. -/
 theorem C02_update_meaning (c : Nat) (h : HS) (hw : wf h = true) (ρ : Env) :
-    (updateValues c h).1.eval ρ = h.eval ρ :=
-  ((update_ready _ (ensure_linked c h hw).1).2.2.trans (ensure_linked c h hw).2).ev ρ
+    (updateValues c h).1.eval ρ = h.eval ρ := by
+  rw [updateValues_eq_once c h hw]
+  exact ((update_ready _ (ensure_linked c h hw).1).2.2.trans (ensure_linked c h hw).2).ev ρ
 
 /-- **C02_write_meaning_wf (DESIGN's C02_write_meaning).** For every well-formed tree, whatever its size and
     history: the text written after `_update_values` is well-formed MCNP geometry and denotes the Boolean function of
@@ -487,25 +502,132 @@ theorem C02_setOperator_write (c : Nat) (o o' : BOp) (l r : HS) (n : Option GN)
   obtain ⟨e, he, hv⟩ := C02_write_meaning_wf c _ (wf_setOperator o' hw)
   exact ⟨e, he, fun ρ => by rw [hv ρ, C02_ops_setOperator]⟩
 
-/-- an edit of a geometry: a Python operator, the `operator` setter on the root, or a write -/
-inductive Edit where
+/-! ## edits at any node of the tree (address = path from the root), interleaved with writes -/
+
+/-- what is done to the addressed HalfSpace `sub` -/
+inductive NodeEdit where
+  /-- `sub & x`, `x & sub`, `sub | x`, `x | sub`, `~sub`, `sub &= x`, `sub |= x`, assigned back to where `sub` was -/
   | op (o : Op)
+  /-- `sub.operator = o'` (in place) -/
   | setOperator (o' : BOp)
+  /-- `parent.left = x`, `parent.right = x`, `cell.geometry = x` -/
+  | replace (x : HS)
+
+def NodeEdit.apply (e : NodeEdit) (h : HS) : HS :=
+  match e with
+  | .op o => applyOp h o
+  | .setOperator o' => h.setOperator o'
+  | .replace x => x
+
+def NodeEdit.ok : NodeEdit → Prop
+  | .op o => ∀ x, o.operand = some x → wf x = true
+  | .setOperator _ => True
+  | .replace x => wf x = true
+
+theorem wf_nodeEdit {e : NodeEdit} (he : e.ok) {h : HS} (hw : wf h = true) : wf (e.apply h) = true := by
+  cases e with
+  | op o => exact wf_applyOp hw he
+  | setOperator o' => exact wf_setOperator o' hw
+  | replace x => exact he
+
+/-- an edit at a path keeps the tree well-formed when it keeps the addressed subtree well-formed
+    (induction over the path) -/
+theorem wf_editAt (f : HS → HS) (hf : ∀ h, wf h = true → wf (f h) = true) (p : Path) (h : HS)
+    (hw : wf h = true) : wf (h.editAt f p) = true := by
+  induction p generalizing h with
+  | nil => exact hf h hw
+  | cons d p ih =>
+    cases h with
+    | unit _ _ _ _ => cases d <;> exact hw
+    | compl l n =>
+      cases d with
+      | r => exact hw
+      | l =>
+        by_cases hcu : isCellUnit l = true
+        · cases l with
+          | unit d' s c vn =>
+            cases c
+            · simp [isCellUnit] at hcu
+            · exact hw
+          | compl _ _ => simp [isCellUnit] at hcu
+          | bin _ _ _ _ => simp [isCellUnit] at hcu
+        · have hcu' : isCellUnit l = false := by simpa using hcu
+          have hstep : (HS.compl l n).editAt f (.l :: p) = .compl (l.editAt f p) n := by
+            cases l with
+            | unit d' s c vn =>
+              cases c
+              · rfl
+              · simp [isCellUnit] at hcu'
+            | compl _ _ => rfl
+            | bin _ _ _ _ => rfl
+          rw [hstep]
+          rw [wf_compl_general hcu'] at hw
+          simp only [Bool.and_eq_true] at hw
+          have hl := ih l hw.1
+          rw [wf_compl_general (wf_not_cell hl)]
+          simp only [Bool.and_eq_true]
+          exact ⟨hl, hw.2⟩
+    | bin o l r n =>
+      simp only [wf, Bool.and_eq_true] at hw
+      cases d with
+      | l =>
+        show wf (.bin o (l.editAt f p) r n) = true
+        simp only [wf, Bool.and_eq_true]
+        exact ⟨⟨ih l hw.1.1, hw.1.2⟩, hw.2⟩
+      | r =>
+        show wf (.bin o l (r.editAt f p) n) = true
+        simp only [wf, Bool.and_eq_true]
+        exact ⟨⟨hw.1.1, ih r hw.1.2⟩, hw.2⟩
+
+/-- **C02_editAt_meaning.** The region after an edit at a path depends only on the region the edit produces at the
+    addressed node: edits with the same local meaning (e.g. `sub &= x` and `sub & x`) give the same region. -/
+theorem C02_editAt_meaning (f g : HS → HS) (hfg : ∀ h ρ, (f h).eval ρ = (g h).eval ρ) (p : Path) (h : HS) (ρ : Env) :
+    (h.editAt f p).eval ρ = (h.editAt g p).eval ρ := by
+  induction p generalizing h with
+  | nil => exact hfg h ρ
+  | cons d p ih =>
+    cases h with
+    | unit _ _ _ _ => cases d <;> rfl
+    | compl l n =>
+      cases d with
+      | r => rfl
+      | l =>
+        cases l with
+        | unit d' s c vn =>
+          cases c
+          · exact congrArg (!·) (ih (.unit d' s false vn))
+          · rfl
+        | compl l' n' => exact congrArg (!·) (ih (.compl l' n'))
+        | bin o' l' r' n' => exact congrArg (!·) (ih (.bin o' l' r' n'))
+    | bin o l r n =>
+      cases d with
+      | l =>
+        cases o
+        · show (_ && _) = (_ && _); rw [ih l]
+        · show (_ || _) = (_ || _); rw [ih l]
+      | r =>
+        cases o
+        · show (_ && _) = (_ && _); rw [ih r]
+        · show (_ || _) = (_ || _); rw [ih r]
+
+/-- an edit of a geometry at any node, or a write -/
+inductive Edit where
+  | at (p : Path) (e : NodeEdit)
   | write
 
 def Edit.ok : Edit → Prop
-  | .op o => ∀ x, o.operand = some x → wf x = true
-  | _ => True
+  | .at _ e => e.ok
+  | .write => True
 
 def runEdit (st : HS × Nat) : Edit → HS × Nat
-  | .op o => (applyOp st.1 o, st.2)
-  | .setOperator o' => (st.1.setOperator o', st.2)
+  | .at p e => (st.1.editAt e.apply p, st.2)
   | .write => updateValues st.2 st.1
 
-/-- **C02_history_edits.** Histories that also use the `operator` setter: after any sequence of operator edits, setter
-    edits and writes from a well-formed tree, the tree is well-formed and the next write's text denotes exactly the
-    region of the tree the API exposes (which `C02_history`, `C02_ops_setOperator` and `C02_update_meaning` give
-    step by step). -/
+/-- **C02_history_edits.** Histories over the whole edit vocabulary at *any* node: after any sequence of edits —
+    each one of `& | ~ &= |=` (either operand order), `hs.operator = …`, `parent.left/right = x` applied to the
+    HalfSpace at any path from the root — interleaved with any number of writes (write; edit an inner node; write;
+    edit the root; write …), from a well-formed tree with well-formed operands: the tree is well-formed, and the
+    text the next write produces denotes exactly the region of the tree the API exposes at that moment. -/
 theorem C02_history_edits (h0 : HS) (c0 : Nat) (es : List Edit) (hw : wf h0 = true) (hs : ∀ e ∈ es, e.ok) :
     wf (es.foldl runEdit (h0, c0)).1 = true ∧
     ∃ e, denote (updateValues (es.foldl runEdit (h0, c0)).2 (es.foldl runEdit (h0, c0)).1).1.fmt = some e ∧
@@ -517,11 +639,19 @@ theorem C02_history_edits (h0 : HS) (c0 : Nat) (es : List Edit) (hw : wf h0 = tr
       have hs' : ∀ t ∈ ss, t.ok := fun t ht => hs t (List.mem_cons_of_mem _ ht)
       have hs0 : s.ok := hs s (List.mem_cons_self ..)
       cases s with
-      | op o => exact ih (applyOp h0 o) c0 (wf_applyOp hw hs0) hs'
-      | setOperator o' => exact ih (h0.setOperator o') c0 (wf_setOperator o' hw) hs'
+      | «at» p e =>
+        exact ih (h0.editAt e.apply p) c0 (wf_editAt _ (fun h hh => wf_nodeEdit hs0 hh) p h0 hw) hs'
       | write =>
         exact ih (updateValues c0 h0).1 (updateValues c0 h0).2 (C02_ready_wf _ (C02_update_ready c0 h0 hw)) hs'
   exact ⟨key, C02_write_meaning_wf _ _ key⟩
+
+/-- every text written *during* such a history — not only the last one — denotes the region of the tree at that
+    moment: a history cut at any write is a history -/
+theorem C02_history_every_write (h0 : HS) (c0 : Nat) (es es' : List Edit) (hw : wf h0 = true)
+    (hs : ∀ e ∈ es ++ .write :: es', e.ok) :
+    ∃ e, denote (updateValues (es.foldl runEdit (h0, c0)).2 (es.foldl runEdit (h0, c0)).1).1.fmt = some e ∧
+      ∀ ρ, e.eval ρ = (es.foldl runEdit (h0, c0)).1.eval ρ :=
+  (C02_history_edits h0 c0 es hw (fun e he => hs e (List.mem_append_left _ he))).2
 
 /-- `Cell._update_values` keeps the cell's geometry entry well-formed and its region unchanged -/
 theorem cell_update_inv (ctr : Nat) (c : CG) (hw : wf c.hs = true) (hp : chainPads c.chain = true) :
